@@ -135,11 +135,19 @@ Advance(cfg, wl, s, cid, h) ==
                   ELSE CrashWith(s2, "zero_tick_op")       \* pinned code: trailing empty segment, operator never completes
         ELSE [s2 EXCEPT !.ctr[cid].i = i + 1, !.ctr[cid].can = FALSE]
 
-Kill(wl, s, cid) ==
+KillErr(wl, s, cid, err) ==
   LET c  == s.ctr[cid]
       s1 == TransSeq(wl, s, SubSeq(c.ops, c.idx + 1, Len(c.ops)), "failed")
   IN IF s1.crash # "" THEN s1
-     ELSE [SetMem(s1, cid, 0) EXCEPT !.ctr[cid].err = "OOM", !.ctr[cid].done = TRUE]
+     ELSE [SetMem(s1, cid, 0) EXCEPT !.ctr[cid].err = err, !.ctr[cid].done = TRUE]
+Kill(wl, s, cid) == KillErr(wl, s, cid, "OOM")
+\* Container.kill(error) called from outside between two ticks (a public method): the unfinished operators fail at once, the memory is
+\* dropped; the container is reaped - failure result naming that error, allocation returned - by the pool's next tick, which does not
+\* advance it any more.  Only a live container (running, not ended) can be killed.
+ExternalKill(cfg, wl, s, cid, err) ==
+  IF s.crash # "" THEN s
+  ELSE IF ~(\E k \in 1..cfg.np : cid \in Range(s.pools[k].active)) \/ s.ctr[cid].done \/ err = "" THEN CrashWith(s, "kill_invalid")
+  ELSE [KillErr(wl, s, cid, err) EXCEPT !.ctr[cid].can = FALSE]
 
 \* suspension = writing the allocation to disk at 20 GB/s: floor(ram/20 * tps) ticks, at least one (C10)
 SuspTicks(cfg, ram) ==
